@@ -83,11 +83,11 @@ type fakeIDP struct {
 	sticky map[string]string
 	// modeQueue: one-shot faults for the next requests, one per request ("" = answer healthily), used when nextMode is empty
 	modeQueue []string
-	log      []idpLogEntry
-	idTokens map[string]int // serialized id token -> id
-	inflight int
-	maxInfl  int
-	start    time.Time
+	log       []idpLogEntry
+	idTokens  map[string]int // serialized id token -> id
+	inflight  int
+	maxInfl   int
+	start     time.Time
 	// hooks to mint deliberately faulty ID tokens (C03); nil = honest
 	mutateIDToken func(b *jwt.Builder, req *authzRequest) *jwt.Builder
 	signIDToken   func(tok jwt.Token) (string, error)
